@@ -110,9 +110,8 @@ def zygote_result(req, hashseed):
 
 def plan(tier, seed):
     q = tier == "quick"
-    # a fresh process costs 4-6 CPU-seconds (imports + astroid warm-up): the quick tier takes fresh references for
-    # 4 requests per history, the thorough tier for all of them under 4 hash seeds
-    return dict(tasks=pool.batches("history", 8 if q else 400, 1, tier=tier), nworkers=8, time_cap=80 if q else 880, timeout=300, max_samples=2)
+    # a fresh process costs 4-8 CPU-seconds (imports + astroid warm-up): see gen_case for how many are taken
+    return dict(tasks=pool.batches("history", 8 if q else 64, 1, tier=tier), nworkers=8, time_cap=80 if q else 880, timeout=300, max_samples=2)
 
 
 def worker_init():
@@ -177,10 +176,11 @@ def gen_case(task, i):
     order = [r.randrange(len(P)) for _ in range(n)]
     # make sure every request occurs and the first block alternates
     order = list(range(len(P))) + order
-    hs = [0, r.randrange(1, 1000)] + ([r.randrange(1000, 2000), r.randrange(2000, 3000)] if task.get("tier") == "thorough" else [])
+    hs = [0, r.randrange(1, 1000)] + ([r.randrange(1000, 2000)] if task.get("tier") == "thorough" else [])
     fresh_for = list(range(len(P)))
-    if task.get("tier") != "thorough":
-        fresh_for = sorted(r.sample(fresh_for, 1))
+    # truly fresh interpreters cost 5-8 CPU-seconds each: 1 request per history in the quick tier, 4 in the thorough
+    # tier (under 3 hash seeds); the other requests are referenced by forked pristine children
+    fresh_for = sorted(r.sample(fresh_for, 1 if task.get("tier") != "thorough" else min(4, len(fresh_for))))
     return dict(pool=P, order=order, hashseeds=hs, fresh_for=fresh_for, stream=task["stream"])
 
 
